@@ -7,6 +7,7 @@ From Coq Require Import ZArith NArith List String Ascii Bool Lia.
 From GSP Require Import Base.Prelude Loader.Model.
 Import ListNotations.
 Open Scope string_scope.
+Open Scope list_scope.
 Open Scope Z_scope.
 
 (* ---- association lists ---- *)
@@ -52,30 +53,29 @@ Lemma load_route cfg st u :
   end.
 Proof.
   unfold route_of, load.
-  destruct (has_prefix "http://" u) eqn:H1; simpl; [reflexivity|].
-  destruct (has_prefix "https://" u) eqn:H2; simpl; [reflexivity|].
-  destruct (has_prefix "ipfs://" u) eqn:H3; simpl; [|eexists; reflexivity].
-  destruct (ipfs_client cfg) eqn:Hc; simpl; [reflexivity|].
-  destruct (String.eqb (gateway cfg) "") eqn:Hg; simpl; [eexists; reflexivity|reflexivity].
+  destruct (has_prefix "http://" u), (has_prefix "https://" u), (has_prefix "ipfs://" u);
+    cbn [orb]; try reflexivity; try (eexists; reflexivity);
+    destruct (ipfs_client cfg); try reflexivity;
+    destruct (String.eqb (gateway cfg) ""); cbn [negb]; try reflexivity; eexists; reflexivity.
 Qed.
 
 (* the table itself, on explicit URL shapes *)
-Lemma route_http cfg s : route_of cfg ("http://" ++ s) = ToHttp ("http://" ++ s).
+Lemma route_http cfg s : route_of cfg ("http://" ++ s)%string = ToHttp ("http://" ++ s)%string.
 Proof. reflexivity. Qed.
-Lemma route_https cfg s : route_of cfg ("https://" ++ s) = ToHttp ("https://" ++ s).
+Lemma route_https cfg s : route_of cfg ("https://" ++ s)%string = ToHttp ("https://" ++ s)%string.
 Proof. reflexivity. Qed.
 Lemma route_ipfs_client cfg s :
-  ipfs_client cfg = true -> route_of cfg ("ipfs://" ++ s) = ToNode s.
+  ipfs_client cfg = true -> route_of cfg ("ipfs://" ++ s)%string = ToNode s.
 Proof. intros H. unfold route_of. cbn. rewrite H. reflexivity. Qed.
 Lemma route_ipfs_gateway cfg s :
   ipfs_client cfg = false -> gateway cfg <> "" ->
-  route_of cfg ("ipfs://" ++ s) = ToHttp (gateway_url (gateway cfg) s).
+  route_of cfg ("ipfs://" ++ s)%string = ToHttp (gateway_url (gateway cfg) s).
 Proof.
   intros H Hg. unfold route_of. cbn. rewrite H.
   destruct (String.eqb (gateway cfg) "") eqn:E; [apply String.eqb_eq in E; contradiction|reflexivity].
 Qed.
 Lemma route_ipfs_none cfg s :
-  ipfs_client cfg = false -> gateway cfg = "" -> route_of cfg ("ipfs://" ++ s) = Reject.
+  ipfs_client cfg = false -> gateway cfg = "" -> route_of cfg ("ipfs://" ++ s)%string = Reject.
 Proof. intros H Hg. unfold route_of. cbn. rewrite H, Hg. reflexivity. Qed.
 Lemma route_other cfg u :
   has_prefix "http://" u = false -> has_prefix "https://" u = false ->
